@@ -29,6 +29,13 @@ func propC11() *fw.Prop {
 
 var bg = context.Background()
 
+// the raw result of an earlier case (not copied), re-examined after later runs
+var (
+	keptRes   numscript.ExecutionResult
+	keptSum   string
+	keptInput any
+)
+
 func summarize(res numscript.ExecutionResult, err numscript.InterpreterError) string {
 	return real.Summarize(res, err)
 }
@@ -142,6 +149,21 @@ func runC11(c *fw.Ctx) {
 			c.Count("purity_checks", 1)
 		}
 		c.Count("repetition_groups", 1)
+		// a result handed out earlier (previous case) must still be what it was
+		if keptSum != "" {
+			if now := real.Summarize(keptRes, nil); now != keptSum {
+				c.Violation("earlier-result-changed", fmt.Sprintf("the result returned for an earlier script changed after later runs: was %s ⏎ is now %s", keptSum, now), map[string]any{"earlier_case": keptInput, "later_case": input("")})
+				return
+			}
+			c.Count("kept_results_rechecked", 1)
+		}
+		{
+			st := real.NewStore(real.Exact, cs.Balances, cs.Meta)
+			res, err := po.Result.RunWithFeatureFlags(bg, cs.Vars, st, flags)
+			if err == nil {
+				keptRes, keptSum, keptInput = res, real.Summarize(res, nil), input("")
+			}
+		}
 		// the variables map handed to Run directly (no copy made by the harness)
 		{
 			vm := numscript.VariablesMap{}
